@@ -1,16 +1,19 @@
 import TexelVerif.Drv.TT
 import TexelVerif.Drv.Chess
+import TexelVerif.Drv.Text
 /-! Line-protocol driver: one operation per stdin line, one canonical reply line.
     Imports model files only (no proofs, no Mathlib), so it links as a `lean_exe`. -/
 
 structure DrvState where
   tt : TT.Table := default
+  text : Drv.Text.UciSt := {}
 
 def dispatch (st : DrvState) (line : String) : DrvState × String :=
   let toks := (line.trimAscii.toString.splitOn " ").filter (· ≠ "")
   match toks with
   | "tt" :: args => let (t, o) := Drv.TT.step st.tt args; ({ st with tt := t }, o)
   | "chess" :: args => (st, Drv.Chess.step args)
+  | "text" :: args => let (t, o) := Drv.Text.step st.text args; ({ st with text := t }, o)
   | _ => (st, "bad-op")
 
 partial def loop (h : IO.FS.Stream) (out : IO.FS.Stream) (st : DrvState) : IO Unit := do
